@@ -205,7 +205,7 @@ def runner(rep, tier, seed, replay):
         return rep.finish(rule="replay of one recorded behaviour")
     # (M) exhaustive model checking of the repaired design
     for cfg in MCS[tier]:
-        r = run_tlc("MCJobControl", cfg, timeout=3000, xmx="24g")
+        r = run_tlc("MCJobControl", cfg, timeout=7200, xmx="24g")
         if r.violation:
             raise ToolError("the JobControl model violates C06 at the design level (%s):\n%s" % (cfg, r.violation[:3000]))
         check_action_coverage(r, ["Launch", "KStop", "KCont", "KExit", "KKill", "FgStep", "Poll", "Builtin", "Resume"])
